@@ -22,7 +22,7 @@ func vfC06Wire(k int) ([]byte, int) {
 // receive side: a message is refused iff it exceeds a non-zero limit; zero means no limit.
 func VerifH_C06_ReceiveLimits() {
 	k := vfConcrete(vfInt("chunks", 1, 3))
-	wire, n := vfC06Wire((k-1)*8100 + 10)
+	wire, n := vfC06Wire(k)
 	vfAssert(n == k, "unexpected chunk count")
 	maxChunks := vfU32("maxChunks")
 	maxMsg := vfU32("maxMsg")
